@@ -72,6 +72,10 @@ inductive CPc where
   | c3 (deadline : Nat)   -- join(R, 2 s)
   | c4            -- serial.close()
   | c5            -- release the lock
+  | c6            -- return to the caller
+  | r1            -- close() on the reader thread itself: forget all message callbacks
+  | r2            --   alive := false
+  | r3            --   serial.close() (no join, no lock)
 deriving Repr, DecidableEq, BEq, Hashable
 
 /-- caller-side program of one API call -/
@@ -111,6 +115,7 @@ structure St where
   portOpen : Bool := true
   inbox : List UInt8 := []
   faultPending : Bool := false
+  writeFault : Bool := false                -- the next write fails with an I/O error
   -- pyserial ReaderThread
   alive : Bool := true
   lock : Option Tid := none
@@ -143,6 +148,7 @@ inductive Label where
   | tick (d : Nat)
   | dev (bytes : List UInt8)               -- the device makes bytes available
   | fault                                   -- the link drops
+  | wfault                                  -- writes start failing (I/O error on the next write)
   | call (tid : Tid) (text : String)        -- a caller starts put/get/raw with this command text
   | callClose (tid : Tid)                   -- a caller starts close()
   | reg (tid : Tid) (cb : Nat)              -- register_message_callback (atomic)
@@ -193,7 +199,8 @@ def stepS (P : Params) (s : St) : Option (St × Option Obs) :=
   | .logging t i => some ({ s with spc := .lockWait t i, log := s.log ++ [.send t] }, some (.logged tidS))
   | .lockWait t i => if s.lock = none then some ({ s with spc := .writing t i, lock := some tidS }, none) else none
   | .writing t i =>
-    if s.portOpen then some ({ s with spc := .unlock, wire := s.wire ++ [(s.now, t, i)] }, some (.write t))
+    if s.portOpen && s.writeFault then some ({ s with spc := .dead, lock := none }, some (.writeRejected t))
+    else if s.portOpen then some ({ s with spc := .unlock, wire := s.wire ++ [(s.now, t, i)] }, some (.write t))
     else some ({ s with spc := .dead, lock := none }, some (.writeRejected t))
   | .unlock => some ({ s with spc := .sleeping (s.now + P.spacing), lock := none }, none)
   | .sleeping u => if u ≤ s.now then some ({ s with spc := .waitGet (s.now + P.kaInterval) }, none) else none
@@ -222,7 +229,11 @@ def stepR (P : Params) (s : St) : Option (St × Option Obs) :=
   | .line2 l ig => some ({ s with rpc := if ig then .split else .deliver l s.msgCbs, kaPending := false }, none)
   | .deliver _ [] => some ({ s with rpc := .split }, none)
   | .lost 0 => some ({ s with rpc := .lost 1, alive := false, connected := false }, none)
-  | .lost 1 => some ({ s with rpc := .lost 2, queue := [] }, none)      -- drain (commands still queued are discarded)
+  | .lost 1 =>
+    -- drain loop `while queue.get(False): pass`: one item per step (the sender may grab items in between)
+    match s.queue with
+    | _ :: q => some ({ s with queue := q }, none)
+    | [] => some ({ s with rpc := .lost 2 }, none)
   | .lost 2 => some ({ enqueue s .exit with rpc := .lostJoin (s.now + P.joinTimeout) }, none)
   | .lostJoin dl =>
     if s.spc = .done ∨ s.spc = .dead ∨ dl ≤ s.now then some ({ s with rpc := .lost 4 }, none) else none
@@ -235,16 +246,16 @@ def stepR (P : Params) (s : St) : Option (St × Option Obs) :=
 /-- `close()` step of thread `t` at close-pc `pc` -/
 def stepClose (P : Params) (s : St) (t : Tid) (pc : CPc) : Option (St × Option Obs) :=
   match pc with
-  | .c0 => some (setUpc { s with discCbSet := false } t (.closing .c1), none)
+  | .c0 => some (setUpc { s with discCbSet := false } t (.closing (if t = tidR then .r1 else .c1)), none)
   | .c1 => if s.lock = none then some (setUpc { s with lock := some t } t (.closing .c2), none) else none
-  | .c2 =>
-    if t = tidR then
-      -- stop() on the reader thread itself: `join` raises RuntimeError, the `with` releases the lock, the port stays open
-      some (setUpc { s with alive := false, lock := none } t .idle, some (.closeRaised t))
-    else some (setUpc { s with alive := false } t (.closing (.c3 (s.now + P.joinTimeout))), none)
+  | .c2 => some (setUpc { s with alive := false } t (.closing (.c3 (s.now + P.joinTimeout))), none)
+  | .r1 => some (setUpc { s with msgCbs := [] } t (.closing .r2), none)
+  | .r2 => some (setUpc { s with alive := false } t (.closing .r3), none)
+  | .r3 => some (setUpc { s with portOpen := false } t (.closing .c6), if s.portOpen then some .portClose else none)
   | .c3 dl => if s.rpc = .done ∨ s.rpc = .notStarted ∨ dl ≤ s.now then some (setUpc s t (.closing .c4), none) else none
   | .c4 => some (setUpc { s with portOpen := false } t (.closing .c5), if s.portOpen then some .portClose else none)
-  | .c5 => some (setUpc { s with lock := none, closeReturned := true } t .idle, some (.callRet t))
+  | .c5 => some (setUpc { s with lock := none } t (.closing .c6), none)
+  | .c6 => some (setUpc { s with closeReturned := true } t .idle, some (.callRet t))
 
 def stepU (P : Params) (s : St) (t : Tid) : Option (St × Option Obs) :=
   match upcOf s t with
@@ -280,6 +291,7 @@ def step (P : Params) (s : St) : Label → Option (St × Option Obs)
     else none
   | .dev bytes => if s.portOpen then some ({ s with inbox := s.inbox ++ bytes }, none) else none
   | .fault => some ({ s with faultPending := true }, none)
+  | .wfault => some ({ s with writeFault := true }, none)
   | .call t text => if mayCall s t then some (setUpc s t (.submitting text), none) else none
   | .callClose t =>
     if mayCall s t then
